@@ -116,7 +116,17 @@ def run_stream(ctx, rng, idx):
         plan.append((mode, outcome))
     desc = tuple(plan)
     bad = []          # (key, what)
-    pair = vnet.ServedPair(rpyc.VoidService(), Svc(), cfg_a={"sync_request_timeout": WAIT}, cfg_b={})
+    # every other stream: the serving side has a logger configured, as every connection made by a Server has (log records are
+    # built - their arguments evaluated - whatever the level)
+    cfg_b = {}
+    if idx % 2:
+        import logging
+        lg = logging.getLogger("rv-c08-quiet")
+        lg.propagate = False
+        lg.setLevel(logging.CRITICAL + 1)
+        cfg_b = {"logger": lg}
+        ctx.count("streams_with_a_logger_on_the_serving_side")
+    pair = vnet.ServedPair(rpyc.VoidService(), Svc(), cfg_a={"sync_request_timeout": WAIT}, cfg_b=cfg_b)
     a, b, net = pair.a, pair.b, pair.net
     pending = []      # (token, outcome, AsyncResult)
     timeouts = []
